@@ -221,3 +221,7 @@ Definition directory_listing_parameters (recursive all : Z) : res tlv :=
 Definition proxy_put_response (cc dc fs : Z) : res tlv :=
   do b <- one_byte (Z.lor (Z.lor (Z.shiftl cc 4) (Z.shiftl dc 2)) fs);
   reserved_new PM_PUT_RESPONSE b.
+
+(* the decode path of the property: MessageToUserTlv.unpack(data).to_reserved_msg_tlv() *)
+Definition decode_reserved (data : bytes) : res (option tlv) :=
+  do t <- msg_unpack data; to_reserved_msg_tlv t.
